@@ -30,6 +30,17 @@ SAME = [
     (SPARSE, "validation_gemini += gemini_objective(y_pred, affinity) * len(X_batch)",
      "validation_gemini = len(X_batch) * gemini_objective(y_pred, affinity) + validation_gemini"),
     (SPARSE, "    validation_gemini /= len(X)", "    validation_gemini = validation_gemini / len(X)"),
+    # keyword spellings of the matched calls
+    [(BASE, "self._batchify(X, affinity, random_state)", "self._batchify(X, affinity_matrix=affinity, random_state=random_state)"),
+     (BASE, "y_pred = self._infer(X_batch)", "y_pred = self._infer(X=X_batch)"),
+     (BASE, "self._compute_grads(X_batch, y_pred, grads)", "self._compute_grads(X=X_batch, y_pred=y_pred, gradient=grads)"),
+     (BASE, "self._update_weights(weights, grads)", "self._update_weights(weights=weights, gradients=grads)"),
+     (SPARSE, "clf._batchify(X, affinity, generator)", "clf._batchify(X, affinity_matrix=affinity, random_state=generator)"),
+     (SPARSE, "clf._update_weights(weights, grads)", "clf._update_weights(weights=weights, gradients=grads)"),
+     (SPARSE, "iteration_gemini_score, iteration_l1 = compute_val_score(clf, X, y, batch_size, gemini_objective)",
+      "iteration_gemini_score, iteration_l1 = compute_val_score(clf, X, y, batch_size=batch_size, gemini_objective=gemini_objective)"),
+     (SPARSE, "y_pred = clf.predict_proba(X_batch)", "y_pred = clf.predict_proba(X=X_batch)"),
+     (MLCL, "func(indices, affinity_matrix, random_state)", "func(indices, affinity_matrix=affinity_matrix, random_state=random_state)")],
     # alpha-renaming of locals; annotations
     [(BASE, "all_indices", "shuffled_order", "all"), (BASE, "batch_indices", "selected", "all"), (BASE, "X_batch", "data_chunk", "all"),
      (BASE, "affinity_batch", "affinity_chunk", "all"), (BASE, "y_pred", "probabilities", "all"),
@@ -55,8 +66,13 @@ DIFFERENT = [
     (BASE, "affinity_matrix[batch_indices][:, batch_indices]", "affinity_matrix[batch_indices][:, np.sort(batch_indices)]"),
     (BASE, "affinity_matrix[batch_indices][:, batch_indices]", "affinity_matrix[batch_indices[::-1]][:, batch_indices]"),
     (BASE, "for i in range(self.max_iter):", "for i in range(self.max_iter - 1):"),
+    # the generator exhausted before the first step of the epoch (the mlcl record of the true indices goes stale)
+    (BASE, "            for X_batch, affinity_batch in self._batchify(X, affinity, random_state):",
+     "            batches = list(self._batchify(X, affinity, random_state))\n            for X_batch, affinity_batch in batches:"),
     (BASE, "self.n_iter_ = self.max_iter", "self.n_iter_ = self.max_iter - 1"),
     (BASE, "y_pred = self._infer(X_batch)", "y_pred = self._infer(X)"),
+    (BASE, "y_pred = self._infer(X_batch)", "y_pred = self._infer(X=X)"),
+    (BASE, "self._compute_grads(X_batch, y_pred, grads)", "self._compute_grads(y_pred=y_pred, X=X, gradient=grads)"),
     (BASE, "gemini(y_pred, affinity_batch, return_grad=True)", "gemini(y_pred, affinity, return_grad=True)"),
     (BASE, "self._compute_grads(X_batch, y_pred, grads)", "self._compute_grads(X, y_pred, grads)"),
     (MLCL, "yield X[subset], affinity_batch", "yield X[np.sort(subset)], affinity_batch"),
@@ -73,6 +89,8 @@ DIFFERENT = [
      "    if clf.batch_size is not None:\n        batch_size = clf.batch_size\n    else:\n        batch_size = len(X) - 1"),
 ]
 FAIL_CLOSED = [
+    (BASE, "self._batchify(X, affinity, random_state)", "self._batchify(X, random_state=random_state)"),
+    (BASE, "self._batchify(X, affinity, random_state)", "self._batchify(X, affinity_matrix=affinity, rng=random_state)"),
     # the None branch would use the attribute that is None there
     (BASE, "batch_size = len(X) if self.batch_size is None else self.batch_size",
      "batch_size = len(X) if self.batch_size is not None else self.batch_size"),
